@@ -82,3 +82,21 @@ def start_kinds():
     check(q.next_sequence() == a * 7 + b - 13 + 2, "init start")
     q.set_sequence_start(PingSequenceStart.from_ping_values(a, b))
     check(q.next_sequence() == a - b + 3, "ping start")
+
+
+def long_run(n, updates):
+    """Lockstep 'indefinitely': n requests on one sequencer (counter widths 8 and 16 bits lie inside n), with a start
+    update every `updates` requests (0: none); start values symbolic."""
+    set_loop_bound(n + 8)
+    s = sym_int("s0")
+    pool = [sym_int("v0"), sym_int("v1"), sym_int("v2"), sym_int("v3")]      # start values of the updates, reused in turn
+    q = PacketSequencer(start_of(s))
+    k = 0
+    for i in range(n):
+        if updates > 0 and i % updates == updates - 1:
+            k += 1
+            v = pool[k % 4]
+            q.set_sequence_start(start_of(v))
+            s = v
+        got = q.next_sequence()
+        check(got == s + i % 10, "request %d of a long run == start in force + n mod 10" % (i if i < 300 else (i // 1000) * 1000))
